@@ -128,9 +128,9 @@ impl<'h> It<'h> {
     }
     fn next(&mut self) -> Option<TokPos> {
         match self {
-            It::Bare(i) => i.as_mut().unwrap().next().map(|m| ((m.token_type(), m.start(), m.end()), None)),
+            It::Bare(i) => i.as_mut().unwrap().next().map(|m| (bridge::tok(&m), None)),
             It::Pos(i) => i.next().map(|m| {
-                ((m.token_type(), m.start(), m.end()), Some(((m.start_position().line, m.start_position().column), (m.end_position().line, m.end_position().column))))
+                (bridge::tok_ext(&m), Some(((m.start_position().line, m.start_position().column), (m.end_position().line, m.end_position().column))))
             }),
         }
     }
@@ -189,7 +189,7 @@ enum PeekOut {
 }
 
 fn conv(p: PeekResult) -> PeekOut {
-    let t = |v: Vec<scnr::Match>| v.iter().map(|m| (m.token_type(), m.start(), m.end())).collect::<Vec<_>>();
+    let t = |v: Vec<scnr::Match>| v.iter().map(bridge::tok).collect::<Vec<_>>();
     match p {
         PeekResult::Matches(v) => PeekOut::Matches(t(v)),
         PeekResult::MatchesReachedEnd(v) => PeekOut::ReachedEnd(t(v)),
